@@ -165,8 +165,8 @@ Print Assumptions C01_standard_baud_rates.
    class of C01, not a property violation).  The R01 rules follow the code there (an offline station observes
    nothing; the claim reference is re-based at the self-offline poll).
    Conclusion: no rule of property C01 (R01_tx_while_busy, R01_sync_pause, R01_who_may_transmit,
-   R01_check_pass_before_slot, R01_claim_before_timeout) is reported.  The separate promptness monitor
-   Model/FdlPrompt.v (P01_sync_pause_exceeded) is NOT covered. *)
+   R01_check_pass_before_slot, R01_claim_before_timeout) is reported.  The separate reaction-time monitor
+   Model/FdlPrompt.v (P01_reaction_after_slot_time) is covered at the end of this file (C01_prompt_monitor_sound). *)
 From PB Require Import FdlOracle FdlOracleSound1 FdlOracleSound3.
 
 Theorem C01_oracle_sound : forall (A : Type) (ops : app_ops A) (p : params),
@@ -189,3 +189,99 @@ Example C01_oracle_corner_accepted :
   monitor C01_ex_params 0 (model_transcript unit unit_app_ops C01_ex_params [] C01_ex_inputs) = [] /\
   ~ transcript_ok unit unit_app_ops C01_ex_params no_stale [] C01_ex_inputs.
 Proof. exact c01_corner_example. Qed.
+
+(* ------------------------------------------------------------------------------------------ *)
+(* ORACLE SOUNDNESS of the reaction-time monitor Model/FdlPrompt.v, rule P01_reaction_after_slot_time
+   (Proofs/FdlPromptSound1.v, FdlPromptSound2.v): the model station never triggers the rule on its own
+   transcripts.  NO exclusion: every parameter set (pmonitor itself only monitors what builder_validb
+   accepts), every number and kind of total applications, every input history with strictly increasing poll
+   times in [0, 2^62) - any API calls (on / off / new; pas panics and ends the transcript), busy flags and
+   received bytes -, including the corner O9.
+
+   `pmodel_transcript A ops p apps ins` is the list (event, flag) that ocaml/run_fdl.ml hands to `pmonitor`:
+   the events of model_transcript (C01_prompt_transcript_events), each with the flag the driver reads from
+   the hook fingerprint of that event's observation - "the private state is ListenToken{Some(..),..} or
+   ActiveIdle{Some(..),..}", i.e. FdlPromptSound2.psr_flag of the model state after the event; PANIC
+   markers carry false; an API call that panics repeats the last observation.
+
+   The proof is a simulation: the invariant FdlPromptSound2.PB relates the station and the monitor state
+   (q_ref never lags behind last_bus_activity, q_txend agrees with it about "my transmission is still on the
+   wire", pending_bytes covers the buffer unless q_spur - in every state but Offline and ListenToken without
+   pending request, where the station's clock starts later than the monitor's and which the station leaves only
+   by consuming a telegram or transmitting).  Model side: a step that consumes nothing never marks bus
+   activity (FdlPromptSound1.dispatch_nm, all do_* functions); a gated state whose synchronisation pause is
+   over transmits, changes state or ends the GAP polling phase in that poll (FdlPromptSound1.gated_acts);
+   33 bit + 11 bit < Tslot for every slot time the builder accepts. *)
+From PB Require Import FdlPrompt FdlPromptSound1 FdlPromptSound2.
+
+Theorem C01_prompt_monitor_sound : forall (A : Type) (ops : app_ops A) (p : params),
+  apps_total A ops ->
+  forall (apps : list A) (ins : list minput),
+  ins_ok 0 ins ->
+  pmonitor p (pmodel_transcript A ops p apps ins) = [].
+Proof. exact prompt_monitor_sound. Qed.
+Print Assumptions C01_prompt_monitor_sound.
+
+(* the events of pmodel_transcript are those of model_transcript (the transcript of C01_oracle_sound) *)
+Theorem C01_prompt_transcript_events : forall (A : Type) (ops : app_ops A) (p : params) (apps : list A) (ins : list minput),
+  map fst (pmodel_transcript A ops p apps ins) = model_transcript A ops p apps ins.
+Proof. exact pmodel_transcript_fst. Qed.
+Print Assumptions C01_prompt_transcript_events.
+
+(* The inductive step, from ANY station / monitor pair that satisfies the invariant (not only reachable ones):
+   one poll of the model with any admissible input is accepted by pmon_poll and keeps the invariant ... *)
+Theorem C01_prompt_monitor_step : forall (A : Type) (ops : app_ops A) (p : params),
+  apps_total A ops -> builder_valid p ->
+  forall (f : fdl) (apps : list A) (buf : bytes) (tl : Z) (q : pmon) (now : Z) (busy : bool) (nb : bytes)
+         (f' : fdl) (o : phy_out) (apps' : list A) (calls : list call),
+  PB A p f apps buf tl q -> tl < now -> time_ok now -> all_bytes nb ->
+  poll ops f now (mkPhyIn busy (buf ++ nb)) apps = Ok (f', o, apps', calls) ->
+  snd (pmon_poll p q (poll_event now busy (buf ++ nb) f' o calls) (psr_flag f')) = [] /\
+  PB A p f' apps' (rx_left o) now (fst (pmon_poll p q (poll_event now busy (buf ++ nb) f' o calls) (psr_flag f'))).
+Proof. exact prompt_poll_step. Qed.
+Print Assumptions C01_prompt_monitor_step.
+
+(* ... an API call that returns keeps it (the monitor state as pmonitor_from updates it) ... *)
+Theorem C01_prompt_monitor_api : forall (A : Type) (p : params), builder_valid p ->
+  forall (a : api_call) (f : fdl) (apps : list A) (buf : bytes) (tl : Z) (q : pmon) (f' : fdl),
+  PB A p f apps buf tl q -> api_result p a f = Ok f' ->
+  PB A p f' apps buf tl (pmon_after_api a (view_of f') (psr_flag f') q).
+Proof. exact pb_api. Qed.
+Print Assumptions C01_prompt_monitor_api.
+
+(* ... the station just created satisfies it with the monitor state after `A new` ... *)
+Theorem C01_prompt_invariant_init : forall (A : Type) (p : params), builder_valid p ->
+  forall (apps : list A) (f0 : fdl), fdl_new p = Ok f0 ->
+  PB A p f0 apps [] 0 (pmon_reset (view_of f0) (psr_flag f0) 0).
+Proof. exact prompt_invariant_init. Qed.
+Print Assumptions C01_prompt_invariant_init.
+
+(* ... hence every continuation of a run from such a pair is accepted (any event index i). *)
+Theorem C01_prompt_monitor_from : forall (A : Type) (ops : app_ops A) (p : params),
+  apps_total A ops -> builder_valid p ->
+  forall (ins : list minput) (f : fdl) (apps : list A) (buf : bytes) (tl : Z) (q : pmon) (i : nat),
+  PB A p f apps buf tl q -> ins_ok tl ins ->
+  pmonitor_from p i (Some q) (pmodel_events A ops p f apps buf ins) = [].
+Proof. exact prompt_sound_from. Qed.
+Print Assumptions C01_prompt_monitor_from.
+
+(* Non-vacuity.  (a) A computed model history (station 3, 19.2 kbit/s): the station claims the token on a silent
+   bus; polls while its claim token is on the wire and polls inside the synchronisation pause in the gated state
+   ClaimToken (nothing happens), then the second claim token and the first GAP request - the monitor accepts.
+   Per poll: (time, state kind after the poll, transmitted?). *)
+Example C01_prompt_example :
+  builder_validb ex_prompt_params = true /\ ins_ok 0 ex_prompt_inputs /\
+  pmonitor ex_prompt_params (pmodel_transcript unit unit_app_ops ex_prompt_params [] ex_prompt_inputs) = [] /\
+  map poll_summary (pmodel_transcript unit unit_app_ops ex_prompt_params [] ex_prompt_inputs) =
+    [None; None; Some (834, KListenToken, false);
+     Some (70000, KClaimToken, true); Some (70100, KClaimToken, false); Some (71000, KClaimToken, false);
+     Some (72700, KClaimToken, false); Some (72800, KClaimToken, false); Some (73000, KClaimToken, false);
+     Some (75000, KClaimToken, true); Some (76000, KClaimToken, false); Some (78000, KClaimToken, false);
+     Some (79000, KClaimToken, true); Some (82000, KClaimToken, false)].
+Proof. exact prompt_example. Qed.
+
+(* (b) The monitor is not trivially silent: a transcript (not of the model) of a station that sits in PassToken on a
+   silent bus for more than Tslot - 11 bit after the first poll without doing anything is reported at its third event. *)
+Example C01_prompt_monitor_rejects_stuck_station :
+  pmonitor ex_prompt_params ex_stuck_events = [(2%nat, P01_reaction_after_slot_time)].
+Proof. exact prompt_monitor_fires. Qed.
